@@ -156,6 +156,10 @@ def drivePure : List String → Option String
     let pr ← prOf p
     let v ← decVal v
     pure (enc (c.serialize pr v))
+  | ["val_setv", k, v] => do
+    let c ← classOf k
+    let v ← decVal v
+    pure (encSet (c.setValue v))
   | ["val_set", k, p, cur, s] => do
     let c ← classOf k
     let pr ← prOf p
